@@ -106,37 +106,56 @@ package sync
 // unless the store reports an inconsistent state (then the download is cancelled) or the context ends. A reorg is
 // answered by rewinding the store to the reported block and only then acknowledging it.
 //@ ghost var trackedNum int
-//@ ghost var trackedOK bool
+//@ ghost var trackOKCount int
 //@ ghost var processedOK int
 //@ ghost var lastProcessedNum int
 //@ ghost var reorgedOK int
 //@ ghost var lastReorgFrom int
 //@ interface github.com/agglayer/aggkit/sync.ReorgDetector.AddBlockToTrack (self, ctx, id, blockNum, blockHash)
-//@   modifies trackedNum, trackedOK
-//@   ensures result == nil ==> trackedOK && trackedNum == blockNum
-//@   ensures result != nil ==> trackedOK == old(trackedOK) && trackedNum == old(trackedNum)
+//@   modifies trackedNum, trackOKCount
+//@   ensures result == nil ==> trackOKCount == old(trackOKCount) + 1 && trackedNum == blockNum
+//@   ensures result != nil ==> trackOKCount == old(trackOKCount) && trackedNum == old(trackedNum)
 //@ interface github.com/agglayer/aggkit/sync.processorInterface.ProcessBlock (self, ctx, block)
-//@   modifies processedOK, lastProcessedNum
+//@   modifies processedOK, lastProcessedNum, storeLast
 //@   ensures result == nil ==> processedOK == old(processedOK) + 1 && lastProcessedNum == block.Num
 //@   ensures result != nil ==> processedOK == old(processedOK) && lastProcessedNum == old(lastProcessedNum)
 //@ interface github.com/agglayer/aggkit/sync.processorInterface.Reorg (self, ctx, firstReorgedBlock)
-//@   modifies reorgedOK, lastReorgFrom
+//@   modifies reorgedOK, lastReorgFrom, storeLast
 //@   ensures result == nil ==> reorgedOK == old(reorgedOK) + 1 && lastReorgFrom == firstReorgedBlock
 //@   ensures result != nil ==> reorgedOK == old(reorgedOK) && lastReorgFrom == old(lastReorgFrom)
 
 //@ func (d *EVMDriver) handleNewBlock
 //@   props C05 C06
 //@   requires d != nil && d.log != nil && d.rh != nil && d.reorgDetector != nil && d.processor != nil
-//@   requires !trackedOK
-//@   modifies trackedNum, trackedOK, processedOK, lastProcessedNum
+//@   modifies trackedNum, trackOKCount, processedOK, lastProcessedNum, storeLast
 //@   ensures[processed-at-most-once] processedOK == old(processedOK) || (processedOK == old(processedOK) + 1 && lastProcessedNum == b.Num)
-//@   ensures[tracked-before-processed] (processedOK == old(processedOK) + 1 && !b.IsFinalizedBlock) ==> trackedOK && trackedNum == b.Num
-//@   loop 0 invariant d != nil && d.log != nil && d.rh != nil && d.reorgDetector != nil && d.processor != nil && processedOK == old(processedOK) && !trackedOK && !succeed
-//@   loop 1 invariant d != nil && d.log != nil && d.rh != nil && d.processor != nil && (b.IsFinalizedBlock || (trackedOK && trackedNum == b.Num)) && !succeed && processedOK == old(processedOK)
+//@   ensures[tracked-before-processed] (processedOK == old(processedOK) + 1 && !b.IsFinalizedBlock) ==> trackOKCount > old(trackOKCount) && trackedNum == b.Num
+//@   loop 0 invariant d != nil && d.log != nil && d.rh != nil && d.reorgDetector != nil && d.processor != nil && processedOK == old(processedOK) && trackOKCount == old(trackOKCount) && !succeed
+//@   loop 1 invariant d != nil && d.log != nil && d.rh != nil && d.processor != nil && (b.IsFinalizedBlock || (trackOKCount > old(trackOKCount) && trackedNum == b.Num)) && !succeed && processedOK == old(processedOK)
 
 //@ func (d *EVMDriver) handleReorg
 //@   props C06
 //@   requires d != nil && d.log != nil && d.rh != nil && d.processor != nil && d.reorgSub != nil
-//@   modifies heap, reorgedOK, lastReorgFrom
+//@   modifies region("chan:bool.sent"), region("chan:bool.nsent"), reorgedOK, lastReorgFrom, storeLast
 //@   ensures[rewound-exactly-once-to-the-reported-block-before-acknowledging] reorgedOK == old(reorgedOK) + 1 && lastReorgFrom == firstReorgedBlock
 //@   loop 0 invariant d != nil && d.log != nil && d.rh != nil && d.processor != nil && d.reorgSub != nil && reorgedOK == old(reorgedOK)
+
+// ---- the driver's main loop (C06): every (re)start of the download, at start-up and after each reorg, begins at
+// the block after the last one the store holds. Because only blocks with events (and marker blocks) are stored, the
+// fork point of a reorg may lie in the event-less blocks below the first tracked block that changed; restarting
+// after the last stored block re-scans them. storeLast observes the store's answer.
+//@ ghost var storeLast int
+//@ interface github.com/agglayer/aggkit/sync.processorInterface.GetLastProcessedBlock (self, ctx)
+//@   modifies nothing
+//@   ensures result1 == nil ==> result0 == storeLast
+//@ interface github.com/agglayer/aggkit/db/compatibility.CompatibilityChecker.Check (self, ctx, tx)
+//@   modifies nothing
+//@ func (d *EVMDriver) Sync
+//@   props C06 C05
+//@   requires d != nil && d.log != nil && d.rh != nil && d.processor != nil && d.reorgDetector != nil && d.downloader != nil && d.reorgSub != nil && d.compatibilityChecker != nil
+//@   modifies heap, storeLast, trackedNum, trackOKCount, processedOK, lastProcessedNum, reorgedOK, lastReorgFrom
+//@   assert go:Download arg1 == (storeLast + 1) % 18446744073709551616
+//@   loop 0 invariant d != nil && d.log != nil && d.rh != nil && d.processor != nil && d.reorgDetector != nil && d.downloader != nil && d.reorgSub != nil && d.compatibilityChecker != nil
+//@   loop 1 invariant d != nil && d.log != nil && d.rh != nil && d.processor != nil && d.reorgDetector != nil && d.downloader != nil && d.reorgSub != nil && d.compatibilityChecker != nil
+//@   loop 2 invariant d != nil && d.log != nil && d.rh != nil && d.processor != nil && d.reorgDetector != nil && d.downloader != nil && d.reorgSub != nil && d.compatibilityChecker != nil
+//@   loop 3 invariant d != nil && d.log != nil && d.rh != nil && d.processor != nil && d.reorgDetector != nil && d.downloader != nil && d.reorgSub != nil && d.compatibilityChecker != nil
